@@ -31,3 +31,9 @@ pub fn ascii_string<const N: usize>() -> String {
     }
     unsafe { String::from_utf8_unchecked(b.to_vec()) }
 }
+
+/// Stub for `std::hash::RandomState::new` (reads the OS random source through `syscall`, which Kani
+/// does not model): fixed keys. Hash *values* are the subject of no property; set semantics are.
+pub fn stub_random_state() -> std::hash::RandomState {
+    unsafe { std::mem::transmute::<(u64, u64), std::hash::RandomState>((0x0123_4567_89ab_cdef, 0x0fed_cba9_8765_4321)) }
+}
